@@ -64,9 +64,7 @@ func c16(r *Report) {
 	c16MethodOfSigner(r, vr)
 	// registration content
 	vg := p.Func(d, "Module", "validateRegistration")
-	r.ArgIs("C16.registration.not-outliving.vp-expiration-is-receiver", vg, Fn("std:time", "Time", "After"), -1, CallV(Fn(jwtPkg, "Token", "Expiration"), -1), 1)
-	r.ArgIs("C16.registration.not-outliving.credential-expiration-is-argument", vg, Fn("std:time", "Time", "After"), 0, FieldV("VerifiableCredential", "ExpirationDate"), 1)
-	r.Gate(Gate{ID: "C16.registration.not-outliving-credentials", Fn: vg, Effect: ok, ForEach: true, Check: CallCheck(Fn("std:time", "Time", "After"), -1, IsFalse),
+	r.Gate(Gate{ID: "C16.registration.not-outliving-credentials", Fn: vg, Effect: ok, ForEach: true, Check: TimeOrder("credential expiration is before presentation expiration is false", FieldV("VerifiableCredential", "ExpirationDate"), CallV(Fn(jwtPkg, "Token", "Expiration"), -1), IsFalse),
 		Skip: []Check{CmpCheck("cred.ExpirationDate == nil", token.EQL, FieldV("VerifiableCredential", "ExpirationDate"), NilV(), true)}})
 	r.Gate(Gate{ID: "C16.registration.definition-match", Fn: vg, Effect: ok, Check: ErrCheck(Fn("vcr/pe", "PresentationDefinition", "Match"))})
 	r.Gate(Gate{ID: "C16.registration.all-and-only", Fn: vg, Effect: ok, Check: CmpCheck("len(matched) == len(presented)", token.EQL, LenV(CallV(Fn("vcr/pe", "PresentationDefinition", "Match"), 0)), LenV(FieldV("VerifiablePresentation", "VerifiableCredential")), true)})
